@@ -667,9 +667,14 @@ theorem finishReal_sim (h : Emb c e c' e' o) (neg : Bool) (num off tmp startA st
     by_cases hn : num = 0
     · subst hn
       unfold realResult
-      simp only [ne_eq, not_true_eq_false, if_false]
+      simp only [ne_eq, not_true_eq_false, if_false, and_false]
       exact ⟨rfl, rfl, hrel.1⟩
-    · have hs : startA = o + startB := by
+    · have hexp : tA.exponent = tB.exponent := hrel.2.2.2.1
+      by_cases hsat : tB.exponent ≥ 100000000 ∧ num ≠ 0
+      · rw [if_pos (by rw [hexp]; exact hsat), if_pos hsat]
+        exact ⟨rfl, rfl, hrel.1⟩
+      rw [if_neg (by rw [hexp]; exact hsat), if_neg hsat]
+      have hs : startA = o + startB := by
         rcases hstart with hs | hs
         · exact hs
         · exact absurd hs hn
